@@ -715,7 +715,27 @@ def rule_counted(ctx):
                                 counted = True
             if own:
                 counted = True      # the type's own impls (new, clone, conversions) maintain the cache by definition
-            if counted:
+            # a cache counted by increments is right only if the maps start empty: keys present before the counting
+            # loop (one per *requested* label, say) stay in the cache with whatever count they were given, and
+            # labels() / one_vs_all() report labels that no kept sample carries
+            preseed = None
+            if counted and not own and lab is not None:
+                for rl in roots:
+                    e0, hops = inits.get(rl), 0
+                    seen_l = set([rl])
+                    stack = [e0] if e0 is not None else []
+                    while stack and hops < 6:
+                        hops += 1
+                        e1 = stack.pop()
+                        for y in walk(e1):
+                            if y.get("k") == "MethodCall" and y["name"] in ("collect", "insert", "extend", "from_iter", "zip", "cloned", "to_owned") and y["name"] in ("collect", "insert", "extend", "from_iter"):
+                                preseed = y
+                            if y.get("k") == "Path" and y.get("local") in inits and y["local"] not in seen_l:
+                                seen_l.add(y["local"])
+                                stack.append(inits[y["local"]])
+            if preseed is not None:
+                res.violate("%s : counted-map-preseeded" % key, "the label-count maps handed to CountedTargets do not start empty (`%s` before the counting loop): labels inserted up front stay in the cache - with a count no sample accounts for - and labels() / one_vs_all() on the result report labels that no kept sample carries" % Render(c).e(preseed)[:70], fn_loc(fn, preseed.get("ln")))
+            elif counted:
                 res.ok()
             else:
                 res.violate("%s : counted-targets-forged" % key, "a CountedTargets value is built with a `labels` cache that is not `label_count()` of the targets it wraps: the cached counts can disagree with the targets", fn_loc(fn, n["ln"]))
